@@ -60,7 +60,7 @@ ALTS = {
                  for o in itertools.permutations(range(len(cuts) + 1)) for p in (False, True)],
     "retry": [True],
     "zero_rtt": [True],
-    "ncid": ["s8", "s8c8", "s20c4", "s1c1"],
+    "ncid": ["s8", "s8c8", "s20c4", "s1c1", "s1c1eq", "s8c8eq"],
     "v6": [True],
     "ts": ["swap_pairs", "descending"],
 }
@@ -108,7 +108,11 @@ def to_model(sc):
         m["ch_split"] = {"cuts": (100,) if k == "2" else (50, 150), "order": tuple(int(c) for c in order), "packets": p == "p"}
     if "ncid" in sc:
         n = sc["ncid"]
-        d = {"s_len": int(n[1:].split("c")[0])}
+        d = {}
+        if n.endswith("eq"):
+            d["equal"] = True
+            n = n[:-2]
+        d["s_len"] = int(n[1:].split("c")[0])
         if "c" in n:
             d["c_len"] = int(n.split("c")[1])
         m["ncid"] = d
